@@ -323,12 +323,22 @@ def _cmp(name, f):
             raise TypeError("ordering comparison with None")
         if not isinstance(o, (SymReal, SymInt, SymBool, int, float, Fraction)):
             return NotImplemented
+        if isinstance(o, float) and (o != o or o in (_INF, -_INF)):
+            # symbolic values are finite reals: comparisons with +-inf / nan are constants
+            if o != o:
+                return name == "__ne__"
+            big = o > 0
+            return {"__lt__": big, "__le__": big, "__gt__": not big, "__ge__": not big,
+                    "__eq__": False, "__ne__": True}[name]
         if _is_intlike(self) and _is_intlike(o):
             return wrap(f(to_int(self), to_int(o)))
         return wrap(f(to_real(self), to_real(o)))
 
     op.__name__ = name
     return op
+
+
+_INF = float("inf")
 
 
 def _div(a, b, site="/"):
@@ -473,6 +483,9 @@ def sym_pow(x, k):
 def sym_max(a, b):
     if not is_sym(a) and not is_sym(b):
         return a if a >= b else b  # numpy.maximum on plain scalars
+    for u, v in ((a, b), (b, a)):
+        if isinstance(u, float) and u in (_INF, -_INF):
+            return u if u > 0 else v
     if _is_intlike(a) and _is_intlike(b):
         ea, eb = to_int(a), to_int(b)
     else:
@@ -483,6 +496,9 @@ def sym_max(a, b):
 def sym_min(a, b):
     if not is_sym(a) and not is_sym(b):
         return a if a <= b else b
+    for u, v in ((a, b), (b, a)):
+        if isinstance(u, float) and u in (_INF, -_INF):
+            return v if u > 0 else u
     if _is_intlike(a) and _is_intlike(b):
         ea, eb = to_int(a), to_int(b)
     else:
